@@ -255,4 +255,12 @@ def r11_4_refine(repo: Repo, rep: Report):
     r04_2_refine_exact(repo, rep)
 
 
-RULES = [r11_1_serialisation, r11_2_constraint_ownership, r11_3_dump_writer_reader, r11_4_refine]
+def r11_5_shared(repo: Repo, rep: Report):
+    """conditions held in Path.pending reach the query only after activation: a path must be activated before it can
+    end (shared with C13 R13.6)"""
+    from hsa.rules.c13 import r13_6_propagation
+
+    r13_6_propagation(repo, rep)
+
+
+RULES = [r11_1_serialisation, r11_2_constraint_ownership, r11_3_dump_writer_reader, r11_4_refine, r11_5_shared]
